@@ -154,7 +154,7 @@ func newL2WorldOpt(r *core.Run, p *l2Profile, fixedBridge uint64, bases []string
 		w.bases = bases
 		nb = len(bases)
 	}
-	w.now = simEpoch.Add(time.Duration(r.Intn(1000)) * time.Millisecond)
+	w.now = simEpoch.Add(epochShift(r)).Add(time.Duration(r.Intn(1000)) * time.Millisecond)
 	bal := map[string]sdk.Coins{}
 	nk := 2 + r.Intn(2)
 	for i := 0; i < nk; i++ {
@@ -219,9 +219,10 @@ func newL2WorldOpt(r *core.Run, p *l2Profile, fixedBridge uint64, bases []string
 	hookGas := []uint64{0, 60_000, 1_000_000, 3_000_000}[r.Weighted([]int{1, 1, 6, 2})]
 	gen.Params = opchildtypes.NewParams(w.admin, w.executors, uint32(ng+r.Intn(4)), uint32(r.Intn(5)), sdk.NewDecCoins(), nil, hookGas)
 	for i := 0; i < ng; i++ {
-		v := mkValidator(w.valPool[i], 1)
+		pw := []int64{1, 1, 1, 2, 5}[r.Intn(5)] // a genesis may give validators other powers than the 1 that MsgAddValidator assigns
+		v := mkValidator(w.valPool[i], pw)
 		gen.Validators = append(gen.Validators, v)
-		w.m.Vals[v.OperatorAddress] = &mVal{Operator: v.OperatorAddress, OpBytes: valOperator(w.valPool[i]), PubKey: node.ValKey(w.valPool[i]).PubKey().Bytes(), Power: 1, Moniker: v.Moniker}
+		w.m.Vals[v.OperatorAddress] = &mVal{Operator: v.OperatorAddress, OpBytes: valOperator(w.valPool[i]), PubKey: node.ValKey(w.valPool[i]).PubKey().Bytes(), Power: pw, Moniker: v.Moniker}
 	}
 	w.m.Params = gen.Params
 	if p.ClientID != "" || p.ForceBridgeInfo || r.Chance(2, 3) {
